@@ -16,6 +16,7 @@ verus! {
 //@include spec/expand.spec.rs
 //@include spec/stmt.spec.rs
 //@include spec/shape.spec.rs
+//@include spec/driver_std.spec.rs
 //@include spec/driver.spec.rs
 
 impl EntryIndex {
